@@ -385,7 +385,7 @@ def timeat_case(draw):
     # (u: position in the entry's span, -1/2 .. 1/2; also a hair inside either end of the span -- at the end of the table an iterate of the
     # root finder that oversteps has nowhere to go)
     uu = draw(st.one_of(st.floats(-0.45, 0.45), st.floats(-0.45, 0.45),
-                        st.tuples(st.sampled_from([-1, 1]), st.sampled_from([1e-3, 1e-5, 1e-7, 1e-9])).map(lambda t: t[0] * (0.5 - t[1]))))
+                        st.tuples(st.sampled_from([-1, 1]), st.sampled_from([1e-3, 1e-5, 1e-7, 1e-9, 0.0, 0.0])).map(lambda t: t[0] * (0.5 - t[1]))))
     return {"pc": pc, "j": draw(st.sampled_from([0, n - 1, draw(st.integers(0, n - 1))])), "u": uu, "guess": draw(st.sampled_from(["none", "tmid", "near", "other_entry", "other_entry"])), "j2": draw(st.integers(0, n - 1)),
             "u2": draw(st.floats(-0.45, 0.45))}
 
@@ -430,7 +430,7 @@ def run_timeat(case, stt):
         # the answer is the guess plus a number of seconds held in one double: its resolution grows with the distance from the guess
         tol += abs(O.T(kw["guess"]) - T) * F(f0) * F(1, 2**52)
     d = abs(pred_exact(back)[0] - tv)
-    if not pc.get("consistent", True):
+    if not pc.get("consistent", True) or pc.get("truncated"):
         # entries that disagree where they overlap: the time found on one of them may be predicted from the other
         tol += max([abs(a.phase(T) - b.phase(T)) for a in ents for b in ents if a.contains(T) and b.contains(T)] + [F(0)])
     check(d <= tol, "predictor(time_at(phase)) differs from the phase by {:.3g} cycles (tol {:.3g})", float(d), float(tol))
